@@ -12,7 +12,7 @@ RULE = ('random pytrees incl. malformed custom nodes (wrong tuple size, entries/
 IMPL_TIMEOUT = 3000
 
 
-def generate(gen, tier):
+def _generate_model_cases(gen, tier):
     n = 300 if tier == 'quick' else 9000
     cases = []
     for i in range(n):
@@ -65,11 +65,30 @@ def mk_case(cfg, t, heavy=False):
     return {'lines': lines, 'o': {'cfg': render(cfg), 'tree': render(t)}}
 
 
+def generate(gen, tier):
+    cases = _generate_model_cases(gen, tier)
+    # order-free stream: key sets outside the model's key universe (props/exotic.py); oracle only, no model lines
+    n = 150 if tier == 'quick' else 3750
+    for _ in range(n):
+        cases.append({'lines': [], 'o': {'exotic': gen.rng.randrange(10**9)}})
+    return cases
+
+
 def nontrivial(case):
+    if 'exotic' in case['o']:
+        return True
     return has_internal_node(parse(case['o']['tree']))
 
 
 def distribution(cases):
+    n_exotic = sum(1 for c in cases if 'exotic' in c['o'])
+    cases = [c for c in cases if 'exotic' not in c['o']]
+    d0 = _distribution(cases)
+    d0['exotic_key_cases'] = n_exotic
+    return d0
+
+
+def _distribution(cases):
     return tree_distribution(cases)
 
 
@@ -87,6 +106,10 @@ def same(a, b):
 
 
 def oracle(impl, o):
+    if 'exotic' in o:
+        import optree as _optree
+        from props import exotic
+        return exotic.check_C03(_optree, o['exotic'])
     import optree
     u = impl.u
     fails = []
@@ -161,4 +184,39 @@ def oracle(impl, o):
                     fails.append({'key': 'maxmin', 'what': 'tree_max/min differ from max/min(tree_leaves)'})
             if optree.tree_all(ints, **kw_i) != all(il) or optree.tree_any(ints, **kw_i) != any(il):
                 fails.append({'key': 'allany', 'what': 'tree_all/any differ from all/any(tree_leaves)'})
+            # every optional argument of the reductions, against the Python fold with the same arguments
+            # (same value, or an exception of the same type)
+            import functools
+            import operator
+            lo, hi = (min(il) - 5, max(il) + 5) if il else (-1, 1)
+            mid = il[len(il) // 2] if il else 0
+            neg = operator.neg
+            menu = []
+            for d in (lo, hi, mid, None, 'x'):
+                for key in (None, neg):
+                    kws = {} if key is None else {'key': key}
+                    menu.append((f'tree_max(default={d!r}, key={"neg" if key else None})',
+                                 lambda d=d, kws=kws: optree.tree_max(ints, default=d, **kws, **kw_i),
+                                 lambda d=d, kws=kws: max(il, default=d, **kws)))
+                    menu.append((f'tree_min(default={d!r}, key={"neg" if key else None})',
+                                 lambda d=d, kws=kws: optree.tree_min(ints, default=d, **kws, **kw_i),
+                                 lambda d=d, kws=kws: min(il, default=d, **kws)))
+            for key in (None, neg):
+                kws = {} if key is None else {'key': key}
+                menu.append((f'tree_max(key={"neg" if key else None})', lambda kws=kws: optree.tree_max(ints, **kws, **kw_i), lambda kws=kws: max(il, **kws)))
+                menu.append((f'tree_min(key={"neg" if key else None})', lambda kws=kws: optree.tree_min(ints, **kws, **kw_i), lambda kws=kws: min(il, **kws)))
+            for st in (0, 7, -3, 2.5):
+                menu.append((f'tree_sum(start={st!r})', lambda st=st: optree.tree_sum(ints, st, **kw_i), lambda st=st: sum(il, st)))
+            sub = lambda a, b: a * 3 - b                       # noqa: E731  (order-sensitive, not associative)
+            menu.append(('tree_reduce(f)', lambda: optree.tree_reduce(sub, ints, **kw_i), lambda: functools.reduce(sub, il)))
+            for init in (0, 11, -2):
+                menu.append((f'tree_reduce(f, initial={init})', lambda init=init: optree.tree_reduce(sub, ints, init, **kw_i),
+                             lambda init=init: functools.reduce(sub, il, init)))
+            for name, got_f, want_f in menu:
+                got, want = outcome(got_f), outcome(want_f)
+                if got[0] != want[0] or (got[0] == 'ok' and (got[1] != want[1] or type(got[1]) is not type(want[1]))) \
+                        or (got[0] == 'err' and got[1] != want[1]):
+                    fails.append({'key': 'reduction-' + name.split('(')[0], 'what': f'{name} differs from the Python fold over tree_leaves',
+                                  'got': repr(got)[:120], 'want': repr(want)[:120], 'leaves': repr(il)[:200]})
+                    break
     return fails
